@@ -3,6 +3,12 @@ NOTES = ("All checks: ./check <ID> --tier quick|thorough. Exit 0 = held on every
          "allowed), 1 = unlisted violation (VIOLATION line with replay file), 2 = machinery failure (never a verdict). "
          "Known findings live in /verif/known_findings.txt. See DESIGN.md.")
 ENGINES = [
+    {"name": "explore (shuttle)", "path": "harness/sched", "serves_properties": ["C17"],
+     "kind_free_text": "shuttle 0.9.3 DfsScheduler over the unmodified src/reference.rs compiled against shuttle::sync via a std shim"},
+    {"name": "lifeprobe", "path": "driver/c16_lifetime.py", "serves_properties": ["C16"],
+     "kind_free_text": "generated safe probe programs type-checked with cargo check; Miri on the accepted ones (thorough)"},
+    {"name": "downstream", "path": "harness/downstream", "serves_properties": ["C17", "C19"],
+     "kind_free_text": "caller crate built under its own feature sets"},
     {"name": "rrtk-mc", "path": "harness/props", "serves_properties": [],
      "kind_free_text": "hand-rolled stateless bounded-exhaustive explorer (all event sequences to depth d, "
                        "deviation-bounded long histories, weak timestamp orders, explicit-state BFS) driving the real "
@@ -10,6 +16,29 @@ ENGINES = [
 ]
 NA = {}
 TEXT = {
+    "C16": {
+        "engine": "rrtk-mc c16-nary-scratch + c16-terminal-read-scratch + c16-axle-constructor; driver/c16_lifetime.py (compiler probes); thorough: c16_miri.py",
+        "technique": "exhaustive enumeration of all absent/present patterns (2^N, N<=8, plus an error at every position), terminal presence combinations and axle sizes 0..8 with poisoned scratch arrays (hook rrtk_verif); bounded enumeration of a generated family of safe probe programs with rustc's borrow checker as oracle; thorough: the same cases and the accepted probes under Miri",
+        "text": "Scratch-slot clause: every pattern for arities 1..8 of sum/product/newest-of, the terminal read and Axle::new "
+                "are executed with the MaybeUninit arrays filled with 0x7F so that any use of an unwritten slot changes the "
+                "result by 3e38 / the timestamp by 9e18; out-of-range terminal indices must panic. Lifetime clause: 77 generated "
+                "safe programs (11 accessors x drop/move/drop-with-partner x read/write, raw-pointer API probes, controls): "
+                "the compiler accepting one is a violation. 24 known findings (F4: 11 accessors x {drop, move}; F6: "
+                "Borrow::Ptr / BorrowMut::Ptr constructible in safe code).",
+        "note": "'No safe program' is decided for the generated family only; controls make sure a rejection is a borrow-checker "
+                "rejection and an acceptance is not a vacuous probe.",
+    },
+    "C17": {
+        "engine": "rrtk-mc c17-aliasing-seqs; driver/c17_extra.py: downstream crate x 4 feature sets; harness/sched (shuttle DFS)",
+        "technique": "exhaustive controlled-scheduler exploration (shuttle check_dfs, unbounded) of 2-4 thread harnesses on the real reference.rs; stateless bounded-exhaustive operation sequences (15^5 quick / 15^7 thorough x 6 variants) against a one-cell model; configuration enumeration of the caller's feature sets for to_dyn!",
+        "text": "Threads: every interleaving at every Mutex/RwLock operation and yield of 2x1, 2x2, 3x1 increments and 2x1+reader "
+                "(thorough adds 2x3 complete and 3x2, 4x1, 2x2+reader up to a 2e7-schedule cap) for the four lock-backed "
+                "variants: no lost update, no deadlock, no panic. Sequential: all clone/to_dyn/read/write/drop sequences on "
+                "3 handle slots for all six variants against a single-cell + handle-count model incl. the drop flag. "
+                "to_dyn! from a downstream crate with and without features named alloc/std.",
+        "note": "shuttle intercepts the lock operations reference.rs performs because the file is compiled against shuttle::sync; "
+                "Arc itself has no scheduling points, which is fine because the property is about the locks.",
+    },
     "C01": {
         "engine": "rrtk-mc c01-grid-pairs + c01-extended-pairs + c01-unary-mixed-constants",
         "technique": "exhaustive enumeration of the finite input space: all 49x49 (and 169x169 extended) ordered unit pairs x every operator form x a 12-value f32 alphabet squared, executed on the real operators under a panic guard against exponent arithmetic",
